@@ -2,7 +2,8 @@ SPEC = dict(
     id="C07",
     bin="c07",
     coq_dir="C07",
-    coq_targets=["C05/Proofs.vo", "C05/Sort.vo", "C05/Examples.vo", "C07/Proofs.vo", "C07/Equiv.vo", "C07/PromoteModel.vo", "C07/Promote.vo", "C07/Examples.vo"],
+    coq_pre_cmd="python3 translators/c07_idcounter.py",
+    coq_targets=["C05/Proofs.vo", "C05/Sort.vo", "C05/Examples.vo", "C07/Proofs.vo", "C07/Equiv.vo", "C07/SharedPtsModel.vo", "C07/SharedPts.vo", "C07/PromoteModel.vo", "C07/Promote.vo", "C07/IdGen.vo", "C07/IdCounter.vo", "C07/Examples.vo"],
     allowed_axioms=[],
     level_text=("Unbounded Coq theorems about the C05 model of write-fonts' object store and packer. Hash iteration: the ordered object map built by "
                 "Graph::from_obj_store and the removed_edges check of both sorts are independent of HashMap iteration order (any permutation). "
@@ -11,6 +12,11 @@ SPEC = dict(
                 "update_distances, assign_space_0, sort_shortest_distance, has_overflows, basic_sort, pack_objects and dump_table commute with rho; "
                 "hence any two strictly increasing id streams give the same bytes/failure (counter_independent), and for every counter start and every "
                 "interleaving of other threads' fetch_add draws the result equals the one with ids 0,1,2,... (concurrent_history_independent). "
+                "Round 4: the premise 'one compilation's ids are a strictly monotone image of creation order' is a CHECKED tie: translators/c07_idcounter.py extracts "
+                "the atomic's width, ObjectId's field width, start and step of ObjectId::next from graph.rs (pinned shape, no other use of the counter, no other "
+                "ObjectId(..) construction; anything else = translator failure) into coq/C07/IdGen.v; proved from those numbers: 2^id_bits > 2^62 (ids_never_wrap), ids "
+                "strictly monotone over the feasible life of the process, process_history_independent (every compilation of a process, whatever came before, gives the "
+                "result of ids 0,1,2,...), and any narrower counter is not monotone at its wrap. "
                 "These theorems cover the modelled basic path (Kahn / shortest distance); the space-assignment / duplication path is modelled and "
                 "evaluated under three id streams per case but its equivariance is not proved. Extension promotion (round 3, coq/C07/PromoteModel.v): "
                 "get_promotable_subtables + select_promotions_hb are modelled (ascending-id enumeration of the BTreeMap, stable sort_by_key, three-layer cut-off); "
@@ -20,7 +26,7 @@ SPEC = dict(
                 "correspondence: generated overflowing GSUB/GPOS with groups of equal-score lookups, the extension lookups read back from the real bytes must be the "
                 "ones the model predicts. On the implementation the property is checked by a "
                 "schedule experiment: generated object DAGs (incl. duplication path), real GPOS/GSUB/GDEF/name/cmap/HVAR/fvar tables, synthetic GPOS "
-                "forcing splitting and promotion, a GSUB whose big lookups pairwise share a coverage (several 32-bit spaces overflowing in one isolation round), every layout builder that collects into hash containers (SinglePos/PairPos/MarkToBase/MarkToMark/MarkToLig/Cursive/ClassDef/Coverage builders, each also repeated 32x in-process), overflowing GSUB/GPOS tables whose lookups have EQUAL promotion scores with the cut-off inside the tied group, variable GPOS built through the public builders (SinglePos/PairPos glyph+class pairs/Cursive/MarkToBase/MarkToMark/MarkToLig, every value with deltas over its own regions, one shared VariationStoreBuilder; IVS + remapped GPOS bytes compared), gvar and ItemVariationStore builders, FontBuilder::build and klippa::subset_font compiled repeatedly "
+                "forcing splitting and promotion, a GSUB whose big lookups pairwise share a coverage (several 32-bit spaces overflowing in one isolation round), every layout builder that collects into hash containers (SinglePos/PairPos/MarkToBase/MarkToMark/MarkToLig/Cursive/ClassDef/Coverage builders, each also repeated 32x in-process), overflowing GSUB/GPOS tables whose lookups have EQUAL promotion scores with the cut-off inside the tied group, variable GPOS built through the public builders (SinglePos/PairPos glyph+class pairs/Cursive/MarkToBase/MarkToMark/MarkToLig, every value with deltas over its own regions, one shared VariationStoreBuilder; IVS + remapped GPOS bytes compared), gvar (random tuples; glyphs with several equally frequent, equally large private point sets; IUP-optimised symmetric outlines) and ItemVariationStore builders, FontBuilder::build and klippa::subset_font compiled repeatedly "
                 "after unrelated compilations, on 1..16 threads with randomised starts, and in fresh child processes; all hashes must agree — partial "
                 "(tested only) for gvar/IVS/klippa and the advanced path."),
     level_note=("Trusted: Coq kernel; coq/C05/Model.v (its agreement with write-fonts is checked on every run, not proved); the harness; the assumption "
@@ -29,11 +35,14 @@ SPEC = dict(
     technique="Coq proof (Permutation, injective renaming) over the C05 Gallina model + vm_compute correspondence under several id streams + schedule/thread/process determinism experiment on the implementation",
     modelled=["write-fonts/src/graph.rs: ObjectStore::add (id draw), Graph::from_obj_store (HashMap -> BTreeMap), removed_edges checks of sort_kahn / sort_shortest_distance, Graph::serialize",
               "write-fonts/src/write.rs: TableWriter::add_table / write_offset (post-order id assignment, content dedup)",
+              "write-fonts/src/tables/gvar.rs: GlyphVariations::compute_shared_points, max_by_first_key — coq/C07/SharedPtsModel.v; each tuple's best_point_packing and its size are case data (read back from the compiled bytes)",
+              "write-fonts/src/graph.rs: OBJECT_COUNTER / ObjectId / ObjectId::next — widths, start, step extracted into coq/C07/IdGen.v by translators/c07_idcounter.py",
               "write-fonts/src/graph.rs: get_promotable_subtables (candidate enumeration), select_promotions_hb (stable ranking + layer cut-off) — coq/C07/PromoteModel.v; sizes and the f64 sort key are case data"],
     not_covered=["equivariance / hash-order independence of the space-assignment path (id_map HashMap iteration in isolate_subgraph_hb, fresh ids of duplicate_subgraph): modelled, evaluated under three id streams per case, not proved",
                  "orphan set in remove_orphans, parent set in get_promotable_subtables (GPOS/GSUB only): not modelled; child-process experiment only",
                  "find_subgraph_size / find_children_size and the f64 arithmetic of LookupSize::sort_key are not modelled (sizes and key are inputs of a promotion case; the key is checked against the exact quotient within 1)",
                  "gpos builders' visiting order of values vs. the first-seen region numbering of VariationStoreBuilder: schedule experiment only (varbuilder jobs)",
-                 "gvar shared tuples/points, VariationStoreBuilder region ordering, klippa FnvHashMaps: schedule experiment only"],
-    assumptions=["an atomic fetch_add hands each thread a strictly increasing sequence of ids (the only fact about the shared counter the argument needs)"],
+                 "gvar shared peak tuples, pick_best_point_number_repr (dense vs sparse), VariationStoreBuilder region ordering, klippa FnvHashMaps: schedule experiment only",
+                 "a wrapped id counter cannot be exhibited on the implementation (2^32+ objects cannot be named from outside, no /repo hook): covered by the generated-width theorem only"],
+    assumptions=["an atomic fetch_add returns the previous counter value (so the n-th draw of the process returns start + n modulo 2^width); that it does not wrap within 2^62 draws is proved from the widths extracted from graph.rs on every run"],
 )
